@@ -257,6 +257,18 @@ func (vc *VC) eval(e *SExpr, env *Env) *Val {
 				bt = fmt.Sprintf("(and %s %s)", g, bt)
 			}
 		}
+		if len(e.Args) > 1 {
+			// explicit trigger given in the contract
+			var pats []string
+			for _, grp := range e.Args[1:] {
+				var ts []string
+				for _, te := range grp.Args {
+					ts = append(ts, vc.eval(te, inner).T)
+				}
+				pats = append(pats, ":pattern ("+strings.Join(ts, " ")+")")
+			}
+			return &Val{T: fmt.Sprintf("(%s (%s) (! %s %s))", e.Name, strings.Join(decls, " "), bt, strings.Join(pats, " ")), Ty: types.Typ[types.Bool]}
+		}
 		if !allRefs {
 			if pats := selectPatterns(bt, qnames); pats != "" {
 				return &Val{T: fmt.Sprintf("(%s (%s) (! %s %s))", e.Name, strings.Join(decls, " "), bt, pats), Ty: types.Typ[types.Bool]}
@@ -349,6 +361,11 @@ func (vc *VC) unifyNil(a, b *Val) (*Val, *Val) {
 
 func (vc *VC) evalIdent(name string, env *Env) *Val {
 	if v, ok := env.vars[name]; ok {
+		if v.DerefOf != nil {
+			// a local variable that lives in the heap (its address is taken):
+			// its value in the state of the environment
+			return vc.derefIn(env, v.DerefOf)
+		}
 		if v.Loc != nil && v.T == "" {
 			// variable held in a cell (named result captured by a closure)
 			return vc.loadIn(env.st, v.Loc)
@@ -432,6 +449,8 @@ func (vc *VC) evalBinop(e *SExpr, env *Env) *Val {
 				x = b
 			}
 			t = fmt.Sprintf("(= (s_arr %s) 0)", x.T)
+		} else if isArrayType(a.Ty) {
+			t = vc.arrEq(a.T, b.T, a.Ty)
 		} else {
 			t = fmt.Sprintf("(= %s %s)", a.T, b.T)
 		}
@@ -639,7 +658,7 @@ func (vc *VC) indexVal(x, i *Val, env *Env) *Val {
 	case *types.Map:
 		_, _, vn, vs := vc.mapHeaps(u)
 		h := vc.getIn(env.st, vn, vs)
-		return &Val{T: fmt.Sprintf("(select (select %s %s) %s)", h, x.T, i.T), Ty: u.Elem()}
+		return &Val{T: fmt.Sprintf("(select (select %s %s) %s)", h, x.T, vc.mapKey(u, i.T)), Ty: u.Elem()}
 	case *types.Basic:
 		if u.Info()&types.IsString != 0 {
 			return &Val{T: fmt.Sprintf("(sat %s %s)", x.T, i.T), Ty: MathInt}
@@ -719,6 +738,44 @@ func (vc *VC) evalCall(e *SExpr, env *Env) *Val {
 				return &Val{T: vc.mapLen(env.st, u, x.T), Ty: MathInt}
 			}
 			vc.evalFail(env, "len of %s", x.Ty)
+		case "subarr":
+			// subarr(a, lo, T): the array value of type T made of len(T)
+			// elements of array a from index lo on
+			a := vc.eval(args[0], env)
+			lo := vc.eval(args[1], env)
+			tv := vc.eval(args[2], env)
+			if !tv.IsType || tv.TypeV == nil || !isArrayType(a.Ty) || !isArrayType(tv.TypeV) {
+				vc.evalFail(env, "subarr(array, index, ArrayType)")
+			}
+			return &Val{T: vc.arrWindow(a.T, lo.T, tv.TypeV), Ty: tv.TypeV}
+		case "idx":
+			// idx(j): index marker, for triggers only (see markIndex)
+			x := vc.eval(args[0], env)
+			return &Val{T: fmt.Sprintf("(%s %s)", vc.jmark(), x.T), Ty: boolT}
+		case "arrlit":
+			// arrlit(T, e0, ..., eN-1): the array value of type T with these elements
+			tv := vc.eval(args[0], env)
+			if !tv.IsType || tv.TypeV == nil || !isArrayType(tv.TypeV) {
+				vc.evalFail(env, "arrlit(ArrayType, elements...)")
+			}
+			at, ok := vc.arrUnrollable(tv.TypeV)
+			if !ok || int64(len(args)-1) != at.Len() {
+				vc.evalFail(env, "arrlit: %s needs %d scalar elements", tv.TypeV, at.Len())
+			}
+			var elems []string
+			for _, a := range args[1:] {
+				elems = append(elems, vc.eval(a, env).T)
+			}
+			return &Val{T: vc.arrChain(tv.TypeV, at, elems), Ty: tv.TypeV}
+		case "strof":
+			// strof(b): the string made of the bytes of slice b
+			x := vc.eval(args[0], env)
+			sl, ok := x.Ty.Underlying().(*types.Slice)
+			if !ok || vc.sortOf(sl.Elem()) != "Int" {
+				vc.evalFail(env, "strof needs a byte slice")
+			}
+			hn, hs := vc.elemHeap(sl.Elem())
+			return &Val{T: fmt.Sprintf("(%s (select %s (s_arr %s)) (s_off %s) (s_len %s))", vc.bytes2str(), vc.getIn(env.st, hn, hs), x.T, x.T, x.T), Ty: types.Typ[types.String]}
 		case "cap":
 			x := vc.eval(args[0], env)
 			return &Val{T: fmt.Sprintf("(s_cap %s)", x.T), Ty: MathInt}
@@ -760,7 +817,7 @@ func (vc *VC) evalCall(e *SExpr, env *Env) *Val {
 				vc.evalFail(env, "has() needs a map")
 			}
 			dn, ds, _, _ := vc.mapHeaps(mt)
-			return &Val{T: fmt.Sprintf("(select (select %s %s) %s)", vc.getIn(env.st, dn, ds), m.T, k.T), Ty: boolT}
+			return &Val{T: fmt.Sprintf("(select (select %s %s) %s)", vc.getIn(env.st, dn, ds), m.T, vc.mapKey(mt, k.T)), Ty: boolT}
 		case "fresh":
 			x := vc.eval(args[0], env)
 			t := x.T
@@ -887,6 +944,10 @@ func (vc *VC) evalCall(e *SExpr, env *Env) *Val {
 				hn, hs := vc.cellHeap(pt.Elem())
 				return &Val{T: fmt.Sprintf("(select %s %s)", vc.getIn(env.st, hn, hs), x.T), Ty: ct,
 					Loc: &Loc{Kind: RCell, Heap: hn, Base: x.T, RootT: pt.Elem()}}
+			}
+			if at, isArr := pt.Elem().Underlying().(*types.Array); isArr {
+				hn, hs := vc.elemHeap(at.Elem())
+				return &Val{T: fmt.Sprintf("(select %s %s)", vc.getIn(env.st, hn, hs), x.T), Ty: pt.Elem()}
 			}
 			if _, isStruct := pt.Elem().Underlying().(*types.Struct); isStruct && !vc.isOpaqueStruct(pt.Elem()) {
 				return vc.loadStruct(env.st, x.T, pt.Elem())
@@ -1529,4 +1590,39 @@ func selectPatterns(body string, qnames []string) string {
 		}
 	}
 	return strings.Join(pats, " ")
+}
+
+func isArrayType(t types.Type) bool {
+	if t == nil {
+		return false
+	}
+	if _, ok := t.(*GhostArr); ok {
+		return false
+	}
+	_, ok := t.Underlying().(*types.Array)
+	return ok
+}
+
+// derefIn is the value behind pointer p in the state of env (as deref(p)).
+func (vc *VC) derefIn(env *Env, p *Val) *Val {
+	pt, ok := p.Ty.Underlying().(*types.Pointer)
+	if !ok {
+		vc.evalFail(env, "deref of non-pointer %s", p.Ty)
+	}
+	if p.Loc != nil && p.T == "" {
+		return vc.loadIn(env.st, p.Loc)
+	}
+	if ct, isAt := atomicContent(pt.Elem()); isAt {
+		hn, hs := vc.cellHeap(pt.Elem())
+		return &Val{T: fmt.Sprintf("(select %s %s)", vc.getIn(env.st, hn, hs), p.T), Ty: ct}
+	}
+	if at, isArr := pt.Elem().Underlying().(*types.Array); isArr {
+		hn, hs := vc.elemHeap(at.Elem())
+		return &Val{T: fmt.Sprintf("(select %s %s)", vc.getIn(env.st, hn, hs), p.T), Ty: pt.Elem()}
+	}
+	if _, isStruct := pt.Elem().Underlying().(*types.Struct); isStruct && !vc.isOpaqueStruct(pt.Elem()) {
+		return vc.loadStruct(env.st, p.T, pt.Elem())
+	}
+	hn, hs := vc.cellHeap(pt.Elem())
+	return &Val{T: fmt.Sprintf("(select %s %s)", vc.getIn(env.st, hn, hs), p.T), Ty: pt.Elem()}
 }
